@@ -95,3 +95,165 @@ def lexiRange : List Nat → List Nat → Bool → Bool → Except Unit PR
 termination_by ld _ _ _ => ld.length
 
 end LlgVerif
+
+namespace LlgVerif
+open Rx
+
+/-- a decimal bound as `format!("{f}")` prints it: sign, integer part, fraction digits (no trailing zero) -/
+structure FB where
+  neg : Bool
+  ip : Nat
+  fd : List Nat
+deriving Repr, DecidableEq, Inhabited
+
+def FB.isZero (b : FB) : Bool := b.ip == 0 && b.fd.all (· == 0)
+
+/-- digit-list comparison of fractions (`0.a < 0.b`), executable twin of `fracLT` -/
+def fracLtB : List Nat → List Nat → Bool
+  | _, [] => false
+  | [], b :: x => decide (0 < b) || fracLtB [] x
+  | a :: d, b :: x => decide (a < b) || (decide (a = b) && fracLtB d x)
+
+/-- magnitude comparison `|a| < |b|` -/
+def FB.absLt (a b : FB) : Bool := decide (a.ip < b.ip) || (decide (a.ip = b.ip) && fracLtB a.fd b.fd)
+
+/-- `a < b` on signed values (`-0` counts as `0`) -/
+def FB.lt (a b : FB) : Bool :=
+  let an := a.neg && !a.isZero
+  let bn := b.neg && !b.isZero
+  match an, bn with
+  | true, false => true
+  | false, true => false
+  | false, false => FB.absLt a b
+  | true, true => FB.absLt b a
+
+def FB.negate (a : FB) : FB := { a with neg := !a.neg }
+def FB.zero : FB := ⟨false, 0, []⟩
+def FB.ofNat (n : Nat) : FB := ⟨false, n, []⟩
+
+def FB.str (a : FB) : String :=
+  (if a.neg then "-" else "") ++ toString a.ip ++ (if a.fd.isEmpty then "" else "." ++ digitsS a.fd)
+
+/-- `regex_syntax::escape` on such a string: `-` and `.` are escaped -/
+def FB.escaped (a : FB) : String :=
+  (if a.neg then "\\-" else "") ++ toString a.ip ++ (if a.fd.isEmpty then "" else "\\." ++ digitsS a.fd)
+
+def dotRx : Rx := set [(46, 46)]
+def fracAny : Rx := cat dotRx (cat (clsRx 0 9) digStar)            -- `\.[0-9]+`
+def optFracAny : Rx := optRx fracAny                               -- `(\.[0-9]+)?`
+def dotZeros : Rx := optRx (cat dotRx (cat (clsRx 0 0) zeroStar))  -- `(\.0+)?`
+
+def padTo (x : List Nat) (n : Nat) : List Nat := x ++ List.replicate (n - x.length) 0
+
+/-- `rx_float_range(Some(left), Some(right), li, ri)` for `0 ≤ left < right` -/
+def floatPos (l r : FB) (li ri : Bool) : Except Unit PR :=
+  if l.ip = r.ip then
+    let n := max l.fd.length r.fd.length
+    let ld := padTo l.fd n
+    let rd := padTo r.fd n
+    match lexiRange ld rd li ri with
+    | .error e => .error e
+    | .ok s =>
+      let suffS := "\\." ++ s.s
+      let suffR := cat dotRx s.rx
+      if li && ld.all (· == 0) then
+        .ok ⟨"(" ++ toString l.ip ++ "(" ++ suffS ++ ")?)", cat (litRx (dec l.ip)) (optRx suffR)⟩
+      else .ok ⟨"(" ++ toString l.ip ++ suffS ++ ")", cat (litRx (dec l.ip)) suffR⟩
+  else
+    let first : List PR × Nat :=
+      if !l.fd.isEmpty || !li then
+        let u := lexiXTo9 l.fd li
+        ([⟨"(" ++ toString l.ip ++ "\\." ++ u.s ++ ")", cat (litRx (dec l.ip)) (cat dotRx u.rx)⟩], l.ip + 1)
+      else ([], l.ip)
+    let leftRec := first.2
+    let mid : Except Unit (List PR) :=
+      if r.ip > leftRec then
+        match nnRange leftRec (r.ip - 1) with
+        | .ok i => .ok [⟨"(" ++ i.s ++ "(\\.[0-9]+)?)", cat i.rx optFracAny⟩]
+        | .error e => .error e
+      else .ok []
+    let last : Except Unit (List PR) :=
+      if !r.fd.isEmpty then
+        match lexi0ToX r.fd ri with
+        | .ok x => .ok [⟨"(" ++ toString r.ip ++ "(\\." ++ x.s ++ ")?)", cat (litRx (dec r.ip)) (optRx (cat dotRx x.rx))⟩]
+        | .error e => .error e
+      else if ri then .ok [⟨toString r.ip ++ "(\\.0+)?", cat (litRx (dec r.ip)) dotZeros⟩]
+      else .ok []
+    match mid, last with
+    | .ok m, .ok la =>
+      let parts := first.1 ++ m ++ la
+      .ok ⟨mkOrS (parts.map (·.s)), altsRx (parts.map (·.rx))⟩
+    | _, _ => .error ()
+
+/-- `rx_float_range(Some(left), Some(right), li, ri)`, any signs -/
+def floatBoth (l r : FB) (li ri : Bool) : Except Unit PR :=
+  if FB.lt r l then .error ()
+  else if !FB.lt l r then
+    -- equal values
+    if li && ri then
+      let sign : Rx := if l.neg then minus else eps
+      if !l.fd.isEmpty then
+        .ok ⟨"(" ++ l.escaped ++ "0*)", cat sign (cat (litRx (dec l.ip)) (cat dotRx (cat (litRx (l.fd.map digitB)) zeroStar)))⟩
+      else .ok ⟨"(" ++ l.escaped ++ "(\\.0+)?)", cat sign (cat (litRx (dec l.ip)) dotZeros)⟩
+    else .error ()
+  else if l.neg && !l.isZero then
+    if r.neg && !r.isZero then
+      match floatPos r.negate l.negate ri li with
+      | .ok p => .ok ⟨"(-" ++ p.s ++ ")", cat minus p.rx⟩
+      | .error e => .error e
+    else
+      match floatPos FB.zero l.negate false li with
+      | .error e => .error e
+      | .ok np =>
+        let negPart : PR := ⟨"(-" ++ np.s ++ ")", cat minus np.rx⟩
+        if !r.isZero || ri then
+          if r.isZero then
+            -- rx_float_range(Some(0.0), Some(0.0), true, right_inclusive): equal bounds
+            if ri then .ok ⟨mkOrS [negPart.s, "(0(\\.0+)?)"], altsRx [negPart.rx, cat (litRx (dec 0)) dotZeros]⟩
+            else .error ()
+          else
+            match floatPos FB.zero r true ri with
+            | .ok pp => .ok ⟨mkOrS [negPart.s, pp.s], altsRx [negPart.rx, pp.rx]⟩
+            | .error e => .error e
+        else .ok ⟨mkOrS [negPart.s], altsRx [negPart.rx]⟩
+  else floatPos l r li ri
+
+
+/-- `rx_float_range(Some(left), None, li, _)` -/
+def floatGe (l : FB) (li : Bool) : Except Unit PR :=
+  let geNonneg := fun (l : FB) (li : Bool) =>
+    let d := numDigits l.ip
+    match floatBoth l (FB.ofNat (10 ^ d)) li false with
+    | .ok a => Except.ok (⟨mkOrS [a.s, "[1-9][0-9]{" ++ toString d ++ ",}(\\.[0-9]+)?"],
+                 altsRx [a.rx, cat (bigRx d) optFracAny]⟩ : PR)
+    | .error e => .error e
+  if l.neg && !l.isZero then
+    match floatBoth l FB.zero li false, geNonneg FB.zero true with
+    | .ok a, .ok b => .ok ⟨mkOrS [a.s, b.s], altsRx [a.rx, b.rx]⟩
+    | _, _ => .error ()
+  else geNonneg l li
+
+/-- `rx_float_range(None, Some(right), _, ri)` -/
+def floatLe (r : FB) (ri : Bool) : Except Unit PR :=
+  if r.isZero then
+    match floatGe FB.zero false with
+    | .error e => .error e
+    | .ok g =>
+      let n : PR := ⟨"-" ++ g.s, cat minus g.rx⟩
+      if ri then .ok ⟨mkOrS [n.s, "0(\\.0+)?"], altsRx [n.rx, cat (litRx (dec 0)) dotZeros]⟩ else .ok n
+  else if !r.neg then
+    match floatGe FB.zero false, floatBoth FB.zero r true ri with
+    | .ok g, .ok b => .ok ⟨mkOrS ["-" ++ g.s, b.s], altsRx [cat minus g.rx, b.rx]⟩
+    | _, _ => .error ()
+  else
+    match floatGe r.negate ri with
+    | .ok g => .ok ⟨"-" ++ g.s, cat minus g.rx⟩
+    | .error e => .error e
+
+def rxFloatRange : Option FB → Option FB → Bool → Bool → Except Unit PR
+  | none, none, _, _ => .ok ⟨"-?(0|[1-9][0-9]*)(\\.[0-9]+)?([eE][+-]?[0-9]+)?", empty⟩
+  | some l, none, li, _ => floatGe l li
+  | none, some r, _, ri => floatLe r ri
+  | some l, some r, li, ri => floatBoth l r li ri
+
+end LlgVerif
